@@ -2,7 +2,8 @@
 
 T3: Model/IMF.v float instance vs masses.PowerLawIMF (constants, N(m) incl.
 exact breaks and outside masses in all three modes, binned_eval per bin,
-Mtot, from_M0).  Oracle: scipy.integrate.quad of N(m) and m N(m).
+Mtot, from_M0; Mtot is the closed-form sum since /repo fix 7d88d64).  Oracle:
+scipy.integrate.quad of N(m) and m N(m) per bin, closed forms for totals.
 """
 import math
 
@@ -171,19 +172,19 @@ def run(chk):
                 chk.fail("break-aligned bins sum to N0", sp, dict(sum=s))
         mt = float(imf.Mtot)
         mt_ref = N0 * sum(seg_int(Ar[i], a[i], mb[i], mb[i + 1], 2) for i in range(len(a)))
-        if abs(mt - mt_ref) > 1e-6 * mt_ref:
+        if abs(mt - mt_ref) > 1e-9 * mt_ref:
             chk.fail("Mtot is the integral of m N(m)", sp, dict(Mtot=mt, ref=mt_ref), rel_dev=abs(mt - mt_ref) / mt_ref)
-        if be[0] == "Ok" and abs(sum(be[2][:nal]) - mt) > 1e-6 * mt:
+        if be[0] == "Ok" and abs(sum(be[2][:nal]) - mt) > 1e-8 * mt:
             chk.fail("break-aligned bins sum to the total mass", sp, dict(sum=sum(be[2][:nal]), Mtot=mt),
                      rel_dev=abs(sum(be[2][:nal]) - mt) / mt, bins_match_closed_form=bool(abs(sum(be[2][:nal]) - mt_ref) <= 1e-8 * mt_ref))
         M0 = 10 ** rng.uniform(0, 7)
         from ssptools.masses import PowerLawIMF
         im2 = PowerLawIMF.from_M0(mb, a, M0)
-        if abs(float(im2.Mtot) - M0) > 1e-6 * M0:
+        if abs(float(im2.Mtot) - M0) > 1e-9 * M0:
             chk.fail("from_M0 yields exactly the requested total mass", dict(sp, M0=M0), dict(Mtot=float(im2.Mtot)),
                      rel_dev=abs(float(im2.Mtot) - M0) / M0)
         mt2 = float(im2.N0) * sum(seg_int(Ar[i], a[i], mb[i], mb[i + 1], 2) for i in range(len(a)))
-        if abs(mt2 - M0) > 1e-6 * M0:
+        if abs(mt2 - M0) > 1e-9 * M0:
             chk.fail("from_M0: closed-form total mass equals the requested mass", dict(sp, M0=M0), dict(closed_form_Mtot=mt2),
                      rel_dev=abs(mt2 - M0) / M0)
         # ---- model expression -------------------------------------------------
@@ -224,9 +225,9 @@ def run(chk):
                         and C.same_float(float(al), got[2])):
                     dis.append(dict(what="binned_eval", input=dict(sp, lo=me["bl"][j], up=me["bu"][j]), impl=got,
                                     model=[oval(pn), oval(pm), float(al)]))
-        if not C.close_float(oval(mmt), me["Mtot"], rtol=1e-3):   # quad (not modelled) vs closed form
+        if not C.close_float(oval(mmt), me["Mtot"], rtol=1e-9):
             dis.append(dict(what="Mtot", input=sp, impl=me["Mtot"], model=oval(mmt)))
-        if not C.close_float(oval(mn0), me["N0_from_M0"], rtol=1e-3):
+        if not C.close_float(oval(mn0), me["N0_from_M0"], rtol=1e-9):
             dis.append(dict(what="from_M0", input=dict(sp, M0=me["M0"]), impl=me["N0_from_M0"], model=oval(mn0)))
     chk.correspondence("A_comps / imf_eval / binned_eval1 / Mtot / from_M0 (1e-9; quad-based at 1e-6) vs PowerLawIMF",
                        len(meta), dis)
